@@ -31,7 +31,20 @@ def run(ck, prog):
         if st.fnode.name != "calculateKappaDistOfPhosphoStates" or st.scope != "object":
             return None
         g = st.mod.funcs.get((st.cls + "." if st.cls else "") + st.fnode.name)
-        k = unparse(inline_locals(g, st.key)).replace(" ", "")
+        kx = inline_locals(g, st.key)
+        k = unparse(kx).replace(" ", "")
+        if getattr(st, "slot", False):
+            # a one-slot cache: the validity test is the key.  How does it look at the stored sites?
+            uses = [n for n in ast.walk(kx) if is_self_attr(n, "phosphosites")]
+            counted = [n for n in ast.walk(kx) if isinstance(n, ast.Call) and getattr(n.func, "id", "") == "len" and n.args and is_self_attr(n.args[0], "phosphosites")]
+            counted += [n for n in ast.walk(kx) if isinstance(n, ast.Call) and getattr(n.func, "attr", "") == "calculateNumberDifferentPhosphoStates"]
+            whole = [n for n in ast.walk(kx) if isinstance(n, ast.Compare) and any(unparse(x).replace(" ", "") in ("self.phosphosites", "tuple(self.phosphosites)", "list(self.phosphosites)")
+                                                                                    for x in [n.left] + n.comparators) and isinstance(n.ops[0], ast.Eq)]
+            if whole:
+                return True
+            if counted and len(uses) <= len([c for c in counted if getattr(c.func, "id", "") == "len"]):
+                return {"validity_test": k[:120], "keeps_only": "the NUMBER of stored sites", "needed": "which sites are stored, and in which order"}
+            return None
         if k in ("tuple(self.phosphosites)", "str(self.phosphosites)", "repr(self.phosphosites)", "tuple(list(self.phosphosites))"):
             return True
         if k in ("frozenset(self.phosphosites)", "tuple(sorted(self.phosphosites))", "tuple(sorted(set(self.phosphosites)))", "len(self.phosphosites)",
@@ -118,23 +131,36 @@ def _getter(ck, prog):
           found=repr(v), slot="plus-one", where=f.loc())
 
 
-def _membership_literals(f, var=None):
+def _membership_literals(f, var=None, prog=None):
+    """membership tests against a literal collection, or against a module-level constant that folds to one"""
     out = []
     for n in ast.walk(f.node):
-        if isinstance(n, ast.Compare) and len(n.ops) == 1 and isinstance(n.ops[0], (ast.In, ast.NotIn)) \
-                and isinstance(n.comparators[0], (ast.List, ast.Tuple, ast.Set)):
+        if not (isinstance(n, ast.Compare) and len(n.ops) == 1 and isinstance(n.ops[0], (ast.In, ast.NotIn))):
+            continue
+        c0 = n.comparators[0]
+        if isinstance(c0, (ast.List, ast.Tuple, ast.Set)):
             try:
-                lit = {e.value for e in n.comparators[0].elts}
+                lit = {e.value for e in c0.elts}
             except AttributeError:
                 continue
             out.append((n, lit))
+        elif prog is not None and isinstance(c0, (ast.Name, ast.Attribute)):
+            g = prog.resolve_global(f.mod, c0)
+            if g and g[1] in g[0].globals:
+                from lcsa import tab
+                try:
+                    v = tab.global_literal(prog, g[0].rel, g[1])
+                except Undecided:
+                    continue
+                if isinstance(v, (list, tuple, set, frozenset, str)) and all(isinstance(x, str) for x in v):
+                    out.append((n, set(v)))
     return out
 
 
 def _sty_sets(ck, prog):
     for meth in ("setPhosPhoSites", "get_phosphosequence", "get_STY_residues"):
         f = prog.fn(SEQ, "Sequence." + meth)
-        lits = [l for l in _membership_literals(f) if all(isinstance(x, str) and len(x) == 1 for x in l[1])]
+        lits = [l for l in _membership_literals(f, prog=prog) if all(isinstance(x, str) and len(x) == 1 for x in l[1])]
         ck.shape(len(lits) == 1, "%s: exactly one membership test against a literal residue set" % meth, f.loc())
         ck.ob("PART-STY", SEQ_PATH + ":Sequence." + meth, lits[0][1] == STY, expected=sorted(STY), found=sorted(lits[0][1]), slot="residue-set",
               where=f.loc(lits[0][0]))
@@ -142,13 +168,32 @@ def _sty_sets(ck, prog):
     f = prog.fn(SEQ, "Sequence.get_STY_residues")
     construct = SEQ_PATH + ":Sequence.get_STY_residues"
     loops = [s for s in f.body() if isinstance(s, ast.For)]
-    ck.shape(len(loops) == 1, "get_STY_residues: one loop", f.loc())
-    lp = loops[0]
-    it = unparse(lp.iter).replace(" ", "")
-    init = {s.targets[0].id: s.value for s in f.body() if isinstance(s, ast.Assign) and isinstance(s.targets[0], ast.Name)}
-    apps = [n for n in ast.walk(lp) if isinstance(n, ast.Call) and getattr(n.func, "attr", "") == "append"]
-    ck.shape(len(apps) == 1 and len(apps[0].args) == 1, "get_STY_residues: one append in the loop", f.loc(lp))
-    arg = apps[0].args[0]
+    comps = [n for n in ast.walk(f.node) if isinstance(n, (ast.ListComp, ast.GeneratorExp)) and len(n.generators) == 1]
+    ck.shape(len(loops) + len(comps) == 1, "get_STY_residues: one loop", f.loc())
+    # a local that only stands for the stored sequence (`seq = self.seq`) is read as the field
+    seq_alias = {s.targets[0].id for s in f.body() if isinstance(s, ast.Assign) and len(s.targets) == 1 and isinstance(s.targets[0], ast.Name)
+                 and is_self_attr(s.value, "seq")}
+    seq_alias = {a for a in seq_alias if sum(1 for n in ast.walk(f.node) if isinstance(n, ast.Name) and n.id == a and isinstance(n.ctx, ast.Store)) == 1}
+
+    def src(e):
+        class R(ast.NodeTransformer):
+            def visit_Name(self, n):
+                return ast.copy_location(ast.parse("self.seq", mode="eval").body, n) if n.id in seq_alias and isinstance(n.ctx, ast.Load) else n
+        import copy
+        return unparse(R().visit(copy.deepcopy(e))).replace(" ", "")
+    if comps:
+        # comprehension form: [<value> for <target> in <iter> if <member test>] - the element expression is what the loop form appends
+        cp = comps[0]
+        lp = ast.For(target=cp.generators[0].target, iter=cp.generators[0].iter, body=[], orelse=[], lineno=cp.lineno, col_offset=cp.col_offset)
+        arg = cp.elt
+        init = {}
+    else:
+        lp = loops[0]
+        init = {s.targets[0].id: s.value for s in f.body() if isinstance(s, ast.Assign) and isinstance(s.targets[0], ast.Name)}
+        apps = [n for n in ast.walk(lp) if isinstance(n, ast.Call) and getattr(n.func, "attr", "") == "append"]
+        ck.shape(len(apps) == 1 and len(apps[0].args) == 1, "get_STY_residues: one append in the loop", f.loc(lp))
+        arg = apps[0].args[0]
+    it = src(lp.iter)
     offset = None
     if it == "self.seq" and isinstance(lp.target, ast.Name):
         # hand-kept counter: find `c = c + 1` / `c += 1` at top level of the body and where it sits relative to the append
@@ -242,24 +287,36 @@ def _substitution(ck, prog):
     # ---- kappa_at_maxPhos
     f = prog.fn(SEQ, "Sequence.kappa_at_maxPhos")
     c = SEQ_PATH + ":Sequence.kappa_at_maxPhos"
-    stores = _const_stores(f)
-    ck.shape(len(stores) >= 1, "kappa_at_maxPhos: substitution written as constant stores into a list copy", f.loc())
-    al = _phos_aliases(f)
-    for node, base, idx, letter in stores:
-        ck.ob("SIB-substitution", c, letter == "E", expected="E", found=letter, slot="letter", where=f.loc(node), note="phosphorylated residues are replaced by glutamate")
-        # the index: loop variable of a loop over the phosphosites
-        lp = next((l for l in ast.walk(f.node) if isinstance(l, ast.For) and any(x is node for x in ast.walk(l))), None)
-        ck.shape(lp is not None and unparse(lp.iter).replace(" ", "") in al and isinstance(lp.target, ast.Name), "kappa_at_maxPhos: store inside a loop over the phosphosites", f.loc(node))
-        ck.ob("SIB-substitution", c, isinstance(idx, ast.Name) and idx.id == lp.target.id, expected="index = the stored (0-based) phosphosite", found=unparse(idx), slot="positions",
-              where=f.loc(node))
-        src = [n for n in ast.walk(f.node) if isinstance(n, ast.Assign) and unparse(n.targets[0]) == base and isinstance(n.value, ast.Call)]
-        ck.shape(len(src) >= 1, "kappa_at_maxPhos: working copy assigned once", f.loc())
-        first = sorted((n for n in src if n.lineno < node.lineno), key=lambda n: n.lineno)
-        ck.shape(len(first) >= 1, "kappa_at_maxPhos: working copy assigned before the stores", f.loc())
-        ck.ob("SIB-substitution", c, unparse(first[-1].value).replace(" ", "") == "list(self.seq)", expected="a copy of the stored sequence: list(self.seq)",
-              found=unparse(first[-1].value), slot="copy", where=f.loc(first[-1]))
     fresh = [n for n in ast.walk(f.node) if isinstance(n, ast.Call) and prog.class_of_ctor(f.mod, n) == "Sequence"]
     ck.shape(len(fresh) == 1, "kappa_at_maxPhos: one derived object", f.loc())
+    # where the substitution is written: here, or in a helper of the class that hands the substituted string to Sequence(...)
+    host = f
+    stores = _const_stores(f)
+    if not stores and fresh[0].args and isinstance(fresh[0].args[0], ast.Call) and not fresh[0].args[0].args and not fresh[0].args[0].keywords:
+        helper = prog.resolve_call(f, fresh[0].args[0])
+        if helper is not None and helper.cls == "Sequence":
+            host = helper
+            stores = _const_stores(host)
+            hrets = [n for n in ast.walk(host.node) if isinstance(n, ast.Return)]
+            bases = {b for _, b, _, _ in stores}
+            ck.shape(len(hrets) == 1 and len(bases) == 1 and hrets[0].value is not None
+                     and unparse(hrets[0].value).replace('"', "'").replace(" ", "") == "''.join(%s)" % next(iter(bases)),
+                     "kappa_at_maxPhos: helper %s returns the joined working copy" % host.name, host.loc())
+    ck.shape(len(stores) >= 1, "kappa_at_maxPhos: substitution written as constant stores into a list copy", f.loc())
+    al = _phos_aliases(host)
+    for node, base, idx, letter in stores:
+        ck.ob("SIB-substitution", c, letter == "E", expected="E", found=letter, slot="letter", where=host.loc(node), note="phosphorylated residues are replaced by glutamate")
+        # the index: loop variable of a loop over the phosphosites
+        lp = next((l for l in ast.walk(host.node) if isinstance(l, ast.For) and any(x is node for x in ast.walk(l))), None)
+        ck.shape(lp is not None and unparse(lp.iter).replace(" ", "") in al and isinstance(lp.target, ast.Name), "kappa_at_maxPhos: store inside a loop over the phosphosites", host.loc(node))
+        ck.ob("SIB-substitution", c, isinstance(idx, ast.Name) and idx.id == lp.target.id, expected="index = the stored (0-based) phosphosite", found=unparse(idx), slot="positions",
+              where=host.loc(node))
+        src = [n for n in ast.walk(host.node) if isinstance(n, ast.Assign) and unparse(n.targets[0]) == base and isinstance(n.value, ast.Call)]
+        ck.shape(len(src) >= 1, "kappa_at_maxPhos: working copy assigned once", host.loc())
+        first = sorted((n for n in src if n.lineno < node.lineno), key=lambda n: n.lineno)
+        ck.shape(len(first) >= 1, "kappa_at_maxPhos: working copy assigned before the stores", host.loc())
+        ck.ob("SIB-substitution", c, unparse(first[-1].value).replace(" ", "") == "list(self.seq)", expected="a copy of the stored sequence: list(self.seq)",
+              found=unparse(first[-1].value), slot="copy", where=host.loc(first[-1]))
     from props.common import carried_state
     cs_ = carried_state(prog, f, fresh[0])
     ck.shape(not any(k_ == "unknown" for k_, _ in cs_), "kappa_at_maxPhos: what Sequence(...) is handed besides the string (%s)" % [t_ for _, t_ in cs_], f.loc(fresh[0]))
@@ -272,6 +329,8 @@ def _substitution(ck, prog):
     for n in ast.walk(f.node):
         if isinstance(n, ast.Assign) and n.value is fresh[0] and isinstance(n.targets[0], ast.Name):
             objname = n.targets[0].id
+    if objname is None:
+        objname = unparse(fresh[0])          # `return Sequence(<substituted>).kappa()` without a local
     others = [k for k in kinds if k not in ("self.kappa()", "%s.kappa()" % objname)]
     ck.ob("SIB-substitution", c, ("%s.kappa()" % objname) in kinds and not others, expected="kappa of the substituted object (own kappa only when there are no sites)", found=kinds,
           slot="result", where=f.loc())
@@ -279,37 +338,64 @@ def _substitution(ck, prog):
     g = prog.fn(SEQ, "Sequence.get_phosphosequence")
     c2 = SEQ_PATH + ":Sequence.get_phosphosequence"
     loops = [s for s in g.body() if isinstance(s, ast.For)]
-    ck.shape(len(loops) == 1 and unparse(loops[0].iter) == "self.seq" and isinstance(loops[0].target, ast.Name), "get_phosphosequence: one loop over the residues", g.loc())
+    ck.shape(len(loops) == 1, "get_phosphosequence: one loop over the residues", g.loc())
     lp = loops[0]
-    from lcsa.sym import AStr, astr_cat
+    it_txt = unparse(lp.iter).replace(" ", "")
+    enum = it_txt in ("enumerate(self.seq)", "enumerate(self.seq,0)", "enumerate(self.seq,start=0)") and isinstance(lp.target, ast.Tuple) and len(lp.target.elts) == 2 \
+        and all(isinstance(e, ast.Name) for e in lp.target.elts)
+    ck.shape(enum or (it_txt == "self.seq" and isinstance(lp.target, ast.Name)), "get_phosphosequence: one loop over the residues", g.loc(lp))
+    from lcsa.sym import AStr, astr_cat, ListAcc
     ev = Evaluator(prog, positive=())
     fr = _Frame(g, 0)
     env = {"self": ObjV("Sequence")}
     for st in g.body()[:g.body().index(lp)]:
         if isinstance(st, ast.Assign) and isinstance(st.targets[0], ast.Name):
             env[st.targets[0].id] = ev.eval(st.value, env, fr)
-    strs = [n for n, v in env.items() if v == ""]
+    strs = [n for n, v in env.items() if isinstance(v, str) and v == ""]
+    lists = [n for n, v in env.items() if isinstance(v, ListAcc) and not v.items]
     nums = [n for n, v in env.items() if isinstance(v, Rat) and v.equals(Rat.const(0))]
-    ck.shape(len(strs) == 1 and len(nums) == 1, "get_phosphosequence: one string accumulator ('') and one index (0)", g.loc())
-    S, I = strs[0], nums[0]
+    ck.shape(len(strs) + len(lists) == 1 and (enum or len(nums) == 1), "get_phosphosequence: one accumulator ('' or []) and one index (0, or the enumerate index)", g.loc())
+    S = (strs + lists)[0]
+    as_list = bool(lists)
     e2 = dict(env)
-    e2[S] = AStr("S")
+    e2[S] = ListAcc([]) if as_list else AStr("S")
+    if enum:
+        I = lp.target.elts[0].id
+        resvar = lp.target.elts[1].id
+        ck.shape(not any(isinstance(n, ast.Name) and n.id == I and isinstance(n.ctx, ast.Store) for b in lp.body for n in ast.walk(b)),
+                 "get_phosphosequence: the enumerate index is not reassigned in the loop", g.loc(lp))
+    else:
+        I = nums[0]
+        resvar = lp.target.id
     e2[I] = Rat.atom("i")
-    e2[lp.target.id] = AStr("seq[i]")
+    e2[resvar] = AStr("seq[i]")
+    nxt = repr(Rat.atom("i") + Rat.const(1))
+
+    def grown(v):
+        """the accumulator after one residue, as the string it stands for"""
+        if not as_list:
+            return repr(v)
+        if not isinstance(v, ListAcc):
+            return repr(v)
+        acc = AStr("S")
+        for item in v.items:
+            acc = astr_cat(acc, item)
+        return repr(acc)
     rows = []
     for p in ev.exec_block(lp.body, [Path([], "live", None, e2)], fr):
         kind = "next" if p.kind in ("live", "continue") else p.kind
-        rows.append((p.conds, (kind, repr(p.env.get(S)), repr(p.env.get(I))) if kind == "next" else (kind,)))
+        rows.append((p.conds, (kind, grown(p.env.get(S)), nxt if enum else repr(p.env.get(I))) if kind == "next" else (kind,)))
     isp = ("opaque", "i in phosphosites")
     sty = ("opaque", "seq[i] in STY")
-    nxt = repr(Rat.atom("i") + Rat.const(1))
     spec = [([isp, sty], ("next", repr(astr_cat(AStr("S"), "E")), nxt)),
             ([("not", isp)], ("next", repr(astr_cat(AStr("S"), AStr("seq[i]"))), nxt))]
     mis = compare_rows(rows, spec, positive=())
     ck.ob("SIB-substitution", c2, mis is None, expected="per residue: 'E' when its index is a stored phosphosite, the residue itself otherwise; index advanced once per residue",
           found=mis or "equivalent", slot="walk", where=g.loc(lp), note="(a stored site that is not S/T/Y is a don't-care: the setter never stores one)")
     rets = [n for n in ast.walk(g.node) if isinstance(n, ast.Return) and n.value is not None]
-    ck.ob("SIB-substitution", c2, [unparse(r.value) for r in rets] == [S], expected="returns the accumulated string", found=[unparse(r.value) for r in rets], slot="returns", where=g.loc())
+    want_ret = ["''.join(%s)" % S] if as_list else [S]
+    ck.ob("SIB-substitution", c2, [unparse(r.value).replace('"', "'").replace(" ", "") for r in rets] == want_ret, expected="returns the accumulated string",
+          found=[unparse(r.value) for r in rets], slot="returns", where=g.loc())
     # ---- calculateKappaDistOfPhosphoStates
     h = prog.fn(SEQ, "Sequence.calculateKappaDistOfPhosphoStates")
     c3 = SEQ_PATH + ":Sequence.calculateKappaDistOfPhosphoStates"
